@@ -22,7 +22,7 @@ type vfC16Case struct {
 }
 
 var vfC16Replies = []string{"handshake", "handshake", "handshake-text", "stream-error:not-authorized", "stream-error:host-unknown", "stream-error:conflict", "stream-error:vf-unknown",
-	"stanza", "sasl-success", "sm-element", "malformed", "close", "rst", "features"}
+	"stanza", "sasl-success", "sm-element", "malformed", "close", "rst", "features", "unknown-ns-then-handshake", "unknown-ns-only", "unknown-name-then-handshake"}
 
 func vfAttrEsc(s string) string {
 	r := strings.NewReplacer("&", "&amp;", "<", "&lt;", ">", "&gt;", "'", "&apos;", "\"", "&quot;", "\n", "&#10;", "\r", "&#13;", "\t", "&#9;")
@@ -64,6 +64,12 @@ func vfC16Run(run *vfkit.Run, cs *vfC16Case) {
 			pc.Send("<enabled xmlns='urn:xmpp:sm:3' id='x'/>" + stanzaAfter)
 		case cs.Reply == "features":
 			pc.Send("<stream:features/>" + stanzaAfter)
+		case cs.Reply == "unknown-ns-then-handshake":
+			pc.Send("<notice xmlns='urn:vf:unknown'>maintenance<handshake xmlns='jabber:component:accept'/></notice><handshake/>" + stanzaAfter)
+		case cs.Reply == "unknown-ns-only":
+			pc.Send("<notice xmlns='urn:vf:unknown'>maintenance</notice>")
+		case cs.Reply == "unknown-name-then-handshake":
+			pc.Send("<shakehand/><handshake/>" + stanzaAfter)
 		case cs.Reply == "malformed":
 			pc.Send("<handshake <<")
 		case cs.Reply == "rst":
